@@ -352,8 +352,11 @@ where
 
     static VTABLE: RawWakerVTable = RawWakerVTable::new(
         |p| RawWaker::new(p, &VTABLE),
-        |_| unreachable!(),
-        |_| unreachable!(),
+        // A function that suspends itself (`yield`, waiting on another thread) wakes the waker
+        // before it returns `Pending`. There is nothing to wake here: `Pending` is reported as
+        // an error below
+        |_| (),
+        |_| (),
         |_| (),
     );
 
